@@ -81,6 +81,7 @@ var ghostVars = []GhostVar{
 }
 
 type deferred struct {
+	recoverLit *ast.FuncLit // the recover idiom in the CLI: its body runs on the panicking paths, which then return normally
 	call  *ast.CallExpr
 	args  []Term
 	regPC Term
